@@ -129,7 +129,7 @@ def curated():
 
 
 def by_name(name):
-    for t in curated():
+    for t in curated() + (generated() if name.startswith('g2.') else []):
         if t['name'] == name:
             return t
     raise KeyError(name)
@@ -146,3 +146,70 @@ def sync_masks(topo, mode='all'):
         yield list(s)
     elif mode == 'async':
         yield []
+
+
+# ---------------------------------------------------------------------------
+# generated family: all two-simulator topologies over a small alphabet
+
+PLACEMENTS2 = {'root': ['A', 'B'], 'same': [['A', 'B']], 'a_in': [['A'], 'B'], 'b_in': ['A', ['B']], 'sib': [['A'], ['B']], 'nest': [['A', ['B']]]}
+
+
+def _edge_opts(st, dt, weak_ok):
+    """connection alternatives src->dst: None or opts dict"""
+    outs = ['p'] if st == TB else (['e'] if st == EV else ['p', 'e'])
+    ins = ['m'] if dt == TB else (['t'] if dt == EV else ['t', 'm'])
+    res = [None]
+    for o in outs:
+        for i in ins:
+            if o == 'e' and i == 'm':
+                continue      # event output into a non-trigger input: mosaik warns against it (lenient in the reference)
+            for kind in ('plain', 'shift', 'weak'):
+                if kind == 'weak' and not weak_ok:
+                    continue
+                d = {'o': o, 'i': i}
+                if kind == 'shift':
+                    d['k'] = 1
+                if kind == 'weak':
+                    d['weak'] = True
+                res.append(d)
+    return res
+
+
+def generated():
+    """every two-simulator topology: 3x3 types x 6 placements x (A->B alternative) x (B->A alternative), at least one
+    connection, accepted by the reference cycle rule (a cycle needs a shifted edge or a weak edge inside the common group)"""
+    out = []
+    for ta in ('tb', 'ev', 'hy'):
+        for tb_ in ('tb', 'ev', 'hy'):
+            for pname, tree in PLACEMENTS2.items():
+                weak_ok = pname in ('same', 'nest')
+                for ab in _edge_opts(SHORT[ta], SHORT[tb_], weak_ok):
+                    for ba in _edge_opts(SHORT[tb_], SHORT[ta], weak_ok):
+                        if ab is None and ba is None:
+                            continue
+                        if ab is not None and ba is not None:
+                            resolved = any(('k' in e) or e.get('weak') for e in (ab, ba))
+                            if not resolved:
+                                continue
+                        edges = []
+                        if ab is not None:
+                            edges.append(('A', 'B', ab))
+                        if ba is not None:
+                            edges.append(('B', 'A', ba))
+                        init = {}
+                        # event-based simulators need an initial event somewhere to do anything
+                        if ta == 'ev' and (tb_ == 'ev' or ab is not None and ba is None):
+                            init['A'] = 0
+                        if tb_ == 'ev' and ta == 'ev' and ab is None:
+                            init = {'B': 0}
+
+                        def tag(e):
+                            if e is None:
+                                return '-'
+                            return e['o'] + e['i'] + ('s' if 'k' in e else ('w' if e.get('weak') else ''))
+                        name = f'g2.{ta}{tb_}.{pname}.{tag(ab)}.{tag(ba)}'
+                        tags = ['generated']
+                        if any(e and e.get('weak') for e in (ab, ba)):
+                            tags.append('weak')
+                        out.append(mk(name, tree, {'A': ta, 'B': tb_}, edges, init=init, tags=tags))
+    return out
